@@ -145,6 +145,89 @@ func extractC15() *lean {
 		}
 	}
 	l.def("authenticateSteps", "List String", leanStrList(authChecks), authChecks)
+
+	// Network.Configure: under which conditions is which authenticator constructor assigned, and under which conditions
+	// does the "disabling TLS in strict mode" error return? (guard path = enclosing if conditions, else-branches negated)
+	_, netw := parseFile("network/network.go")
+	var assigns [][]string
+	var strictGuard []string
+	strictPos, dummyPos := -1, -1
+	var walk func(n ast.Node, guards []string)
+	walk = func(n ast.Node, guards []string) {
+		switch x := n.(type) {
+		case nil:
+			return
+		case *ast.BlockStmt:
+			if x == nil {
+				return
+			}
+			for _, st := range x.List {
+				walk(st, guards)
+			}
+		case *ast.IfStmt:
+			c := c15Src(x.Cond)
+			walk(x.Body, append(append([]string{}, guards...), c))
+			if x.Else != nil {
+				walk(x.Else, append(append([]string{}, guards...), "!("+c+")"))
+			}
+		case *ast.AssignStmt:
+			if len(x.Lhs) == 1 && exprString(x.Lhs[0]) == "authenticator" && len(x.Rhs) == 1 {
+				if call, ok := x.Rhs[0].(*ast.CallExpr); ok {
+					ctor := exprString(call.Fun)
+					assigns = append(assigns, append(append([]string{}, guards...), ctor))
+					if ctor == "grpc.NewDummyAuthenticator" {
+						dummyPos = int(x.Pos())
+					}
+				} else {
+					assigns = append(assigns, append(append([]string{}, guards...), "UNKNOWN:"+c15Src(x.Rhs[0])))
+				}
+			}
+		case *ast.ReturnStmt:
+			for _, r := range x.Results {
+				if strings.Contains(c15Src(r), "disabling TLS in strict mode") {
+					strictGuard = append([]string{}, guards...)
+					strictPos = int(x.Pos())
+				}
+			}
+		case *ast.ForStmt:
+			walk(x.Body, guards)
+		case *ast.RangeStmt:
+			walk(x.Body, guards)
+		case *ast.SwitchStmt:
+			walk(x.Body, append(append([]string{}, guards...), "switch"))
+		case *ast.CaseClause:
+			for _, st := range x.Body {
+				walk(st, append(append([]string{}, guards...), "case"))
+			}
+		}
+	}
+	if fd := funcDecl(netw, "Configure"); fd != nil {
+		// keep only the guards from the connection-manager set-up inwards: drop the outer `n.connectionManager == nil`
+		walk(fd.Body, nil)
+	}
+	strip := func(g []string) []string {
+		var r []string
+		for _, x := range g {
+			if x != "n.connectionManager == nil" {
+				r = append(r, x)
+			}
+		}
+		if r == nil {
+			r = []string{}
+		}
+		return r
+	}
+	var rows []string
+	var raw [][]string
+	for _, a := range assigns {
+		a = strip(a)
+		raw = append(raw, a)
+		rows = append(rows, leanStrList(a))
+	}
+	l.def("authenticatorAssignments", "List (List String)", "["+strings.Join(rows, ", ")+"]", raw)
+	l.def("strictTLSErrorGuard", "List String", leanStrList(strip(strictGuard)), strip(strictGuard))
+	before := strictPos > 0 && dummyPos > 0 && strictPos < dummyPos
+	l.def("strictErrorBeforeDummy", "Bool", c15Bool(before), before)
 	l.def("authenticateSetsFlag", "Bool", c15Bool(setsAuth), setsAuth)
 	return l
 }
